@@ -26,6 +26,11 @@ CLAIMS["C11"] = ("Lean theorems: interpolation disabled leaves the session untou
 CLAIMS["C12"] = ("Lean theorems for every session, option set and start date D: converting with D equals converting without it with every lap date and fix date moved by the single constant D − midnightUTC(first converted row) (shift_constant on the declarative spec, shift_constant_model on the converter model via the C03 refinement); without the option the shift is 0; differences between timestamps are preserved. Tie: impl-vs-impl metamorphic correspondence (with/without start date) incl. D = logged day and sessions crossing midnight.",
                  "Trusted: Lean kernel; harness; Go time arithmetic modelled as Int ns.")
 
+CLAIMS["C04"] = ("Lean theorems: the three patterns regenerated from matcher.go are anchored and have exactly the expected per-position classes (shapes_table, decide); the position-wise matcher accepts exactly names of the right length with every character in its class (match_iff) and captures are the characters at the group's positions (captures); a group validates iff its chapters are 00,01,… or 01,02,… (validate_iff); the concat list is one line per chapter in group order naming the source path (concat_list); for EVERY visiting order and fault position the encoder is only started for an existing valid group (only_valid_joined); an invalid group starts nothing, changes nothing and ends the run with an error (invalid_reports, invalid_stops); no matching name gives ErrNoFiles (empty_dir); directories contribute nothing. Tie: regenerated regex position classes + correspondence of Match / Validate / whole Process runs with the observed map order.",
+                 "Trusted: Lean kernel; translator (regexp/syntax) + harness; regexp engine, WalkDir order and sort.Sort are modelled.")
+CLAIMS["C05"] = ("Lean theorems about processSet for every config, filesystem state, group and EVERY fault position: at most one encoder start (at_most_once); argv = binary, configured args with the -i slot holding the temp name, output last, only for valid non-skipped groups (argv_shape); never for an existing output unless overwrite (no_clobber); every final path was there before or is the output, the temp name is gone (temp_gone); every other path keeps its content/mtime (sources_intact); a listed path is the output of a successful join and carries the first chapter's mtime (listed_is_output); errors list nothing; Validate's slot is an empty argument directly after -i (validate_slot). Tie: verif hook + recording fault-injecting filesystem; op logs, argv, final state and mutated cfg.Args compared with the model, incl. exhaustive single-fault enumeration of a fixed scenario.",
+                 "Trusted: Lean kernel; harness + hook; OS filesystem, html/template modelled; one fault per run.")
+
 NA_REASON = "check under construction in this round (design in DESIGN.md); will be claimed once its model, theorems and correspondence exist"
 
 
@@ -65,7 +70,7 @@ def main():
     print("claimed:", " ".join(claimed))
 
 
-HOOK_COMMITS = []
+HOOK_COMMITS = ["b48bb30"]
 
 if __name__ == "__main__":
     main()
